@@ -311,6 +311,33 @@ func nary(op Op, in []*Term) *Term {
 			return zero
 		}
 	}
+	if op == OpAnd {
+		// a and b and not(a and c)  ->  a and b and not c
+		for i, t := range out {
+			if t.op != OpNot || t.args[0].op != OpAnd {
+				continue
+			}
+			inner := t.args[0].args
+			var rest []*Term
+			for _, x := range inner {
+				if !seen[x.id] {
+					rest = append(rest, x)
+				}
+			}
+			if len(rest) == len(inner) {
+				continue
+			}
+			if len(rest) == 0 {
+				return zero
+			}
+			repl := Not(And(rest...))
+			nw := make([]*Term, 0, len(out))
+			nw = append(nw, out[:i]...)
+			nw = append(nw, out[i+1:]...)
+			nw = append(nw, repl)
+			return nary(op, nw)
+		}
+	}
 	if len(out) == 0 {
 		return unit
 	}
@@ -403,6 +430,44 @@ func factorOr(out []*Term) *Term {
 		}
 	}
 	return nil
+}
+
+func conjuncts(t *Term) []*Term {
+	if t.op == OpAnd {
+		return t.args
+	}
+	return []*Term{t}
+}
+
+// reduceGuard drops from c the conjuncts already guaranteed by born (the
+// condition under which the written object exists at all).
+func reduceGuard(c, born *Term) *Term {
+	if born == nil || born.IsTrue() || c.IsFalse() {
+		return c
+	}
+	if c == born {
+		return TS.True
+	}
+	bs := conjuncts(born)
+	cs := conjuncts(c)
+	have := map[int]bool{}
+	for _, x := range cs {
+		have[x.id] = true
+	}
+	drop := map[int]bool{}
+	for _, b := range bs {
+		if !have[b.id] {
+			return c
+		}
+		drop[b.id] = true
+	}
+	var rest []*Term
+	for _, x := range cs {
+		if !drop[x.id] {
+			rest = append(rest, x)
+		}
+	}
+	return And(rest...)
 }
 
 func subset(small, big []*Term) bool {
